@@ -60,6 +60,9 @@ MUTATIONS = {
     # entry point x indexed left-hand side: _evaluate writes back only period t of what the engine returned
     'evaluate-writes-back-only-t': (1, [("        # If here, store the values back to this Python instance\n        self.values = solved_values\n",
                                          "        # If here, store the values back to this Python instance\n        for name_, row_ in zip(self.names, solved_values):\n            self.__dict__['_' + name_][t] = row_[t]\n")]),
+    # instance dtype: the NaN/Inf guard of solve_t applied to a fancy-indexed block (dtype object -> TypeError)
+    'solve_t-guard-on-packed-values': (1, [("        current_values = get_check_values()\n\n        # Raise an exception if there are pre-existing NaNs or infinities, and\n        # error checking is at its strictest ('raise')\n        if errors == 'raise' and np.any(~np.isfinite(current_values)):\n            raise SolutionError(\n                f'Pre-existing NaNs or infinities found '\n                f'in one or more `CHECK` variables '",
+                                            "        current_values = self.values[[self.names.index(x) for x in self.check], t]\n\n        # Raise an exception if there are pre-existing NaNs or infinities, and\n        # error checking is at its strictest ('raise')\n        if errors == 'raise' and np.any(~np.isfinite(current_values)):\n            raise SolutionError(\n                f'Pre-existing NaNs or infinities found '\n                f'in one or more `CHECK` variables '")]),
     # harmless: must stay exit 0
     'refactor-rename-reorder': (0, [("variables_to_numbers", "numbering"),
                                     ("    endogenous = [s.name for s in symbols if s.type == Type.ENDOGENOUS]\n    exogenous  = [s.name for s in symbols if s.type == Type.EXOGENOUS]\n",
